@@ -168,6 +168,29 @@ def binding_demo(pid, trace, d, tag):
     raise vlib.ToolError("binding demonstration found no suitable event")
 
 
+def apalache_add_months(d, V):
+    """Symbolic check (Apalache, SMT) that the carry arithmetic of add_months agrees with total-months arithmetic for
+    EVERY start month and EVERY integer offset - the one place where the TLC bound (-1300..1300) can be removed."""
+    import subprocess, shutil
+    out = os.path.join(d, "apalache")
+    os.makedirs(out, exist_ok=True)
+    try:
+        r = subprocess.run(["apalache-mc", "check", "--inv=Agree", "--length=0", "--out-dir=" + out, "--run-dir=" + os.path.join(out, "run"),
+                            os.path.join(vlib.SPEC, "apalache", "AddMonthsInt.tla")], capture_output=True, text=True, timeout=600, cwd=out)
+    except (subprocess.TimeoutExpired, FileNotFoundError) as ex:
+        return {"outcome": "not run: %s" % type(ex).__name__}
+    txt = r.stdout + r.stderr
+    if "The outcome is: NoError" in txt:
+        res = {"outcome": "NoError", "invariant": "Agree (YrRollAlg = YrRollDecl, NewMonthAlg = NewMonthDecl, month in 1..12)", "domain": "m in 1..12, off in Int"}
+    elif "The outcome is: Error" in txt:
+        V.add("model/apalache/AddMonthsInt", "Apalache found a counterexample to AddMonthsInt.Agree", {"engine": "model", "state": txt[-1500:]})
+        res = {"outcome": "Error"}
+    else:
+        res = {"outcome": "inconclusive", "tail": txt[-300:]}
+    shutil.rmtree(out, ignore_errors=True)
+    return res
+
+
 def run(pid, tier):
     t0 = time.time()
     vlib.build_java()
@@ -220,6 +243,7 @@ def run(pid, tier):
                 jobs.append(dict(module="MC_Months", cfg=write_cfg(d, "mcm_%d" % m, txt), tag="%s-mc%d" % (tag, m), timeout=3000))
             mrs = tlc_parallel(jobs)
         mrs.append(tlc("MC_DateArith", tag=tag + "-da", timeout=600))
+        apal = apalache_add_months(d, V)
         for r in mrs:
             for v in r["violations"]:
                 V.add("model/" + v["name"], "model invariant %s violated: %s" % (v["name"], v["state"]), {"engine": "model", "state": v["state"]})
@@ -236,7 +260,7 @@ def run(pid, tier):
         st = validate(pid, traces, tag, V, shards=12)
         n, nd, samples = count_owned(traces, pid)
         bind = binding_demo(pid, rnd, d, tag) if rnd in traces and not V.viol else {"skipped": "violations were found"}
-        cov = dict(states=sum(r.get("distinct", 0) for r in mrs), transitions=sum(r.get("generated", 0) for r in mrs),
+        cov = dict(repo_test_events=rt["events"], apalache_unbounded_offsets=apal, states=sum(r.get("distinct", 0) for r in mrs), transitions=sum(r.get("generated", 0) for r in mrs),
                    traces_validated_against_impl=st["events"], evaluations=n, distinct_nontrivial=nd,
                    rule="model: one state per (year, start month, start day, offset), invariant over 35 roll kinds; traces: add_months(Act) on the all-days calendar for covering (month, offset, roll) classes, get_roll / get_imm / get_eom / is_imm / is_eom for every month and is_leap_year for every year 1970-2200, add_months with other modifiers on random calendars",
                    out_of_window_skipped=st["oow"], exhaustive=False, binding_demo=bind, samples=samples)
